@@ -164,34 +164,20 @@ def _lim_ok_upper(lim: Any, x: Any) -> bool:
 
 
 def compu_i2p(cm: Optional[Dict[str, Any]], itype: str, ptype: str, x: Any) -> Any:
-    """internal -> physical; raises Mismatch if the internal value is not valid."""
+    """internal -> physical; raises Mismatch if the internal value is not valid.  For every category but
+    IDENTICAL the exact reference odxmodel.refcompu decides; the result is then an `Accept` object (a set of
+    admissible values with the DESIGN's tolerance for floats) that harness.same_value understands."""
     if cm is None or cm["cat"] == "IDENTICAL":
         if ptype in ("A_FLOAT32", "A_FLOAT64") and isinstance(x, int):
             return float(x)
         return x
-    if cm["cat"] == "LINEAR":
-        s = cm["i2p"][0]
-        if not (_lim_ok_lower(s.get("lo"), x) and _lim_ok_upper(s.get("hi"), x)):
-            raise Mismatch(f"internal value {x} outside the limits")
-        off, fac = Fraction(s["num"][0]), Fraction(s["num"][1])
-        den = Fraction(s["den"][0]) if s.get("den") else Fraction(1)
-        y = (off + fac * Fraction(x)) / den
-        if ptype in ("A_INT32", "A_UINT32"):
-            fl = y.numerator // y.denominator
-            r = y - fl
-            if r == Fraction(1, 2):
-                raise DontCare("exact rounding tie")
-            return fl + (1 if r > Fraction(1, 2) else 0)
-        return float(y)
-    if cm["cat"] == "TEXTTABLE":
-        for s in cm["i2p"]:
-            lo, hi = s.get("lo"), s.get("hi", s.get("lo"))
-            if _lim_ok_lower(lo, x) and _lim_ok_upper(hi, x):
-                return s["const"]
-        if cm.get("default_phys") is not None:
-            return cm["default_phys"]
-        raise Mismatch(f"no text for internal value {x}")
-    raise DontCare("compu category " + cm["cat"])
+    from . import refcompu as RC
+    acc = RC.int_to_phys_accept(cm, itype, ptype, x)
+    if acc is RC.INVALID:
+        raise Mismatch(f"internal value {x!r} is not valid")
+    if acc is RC.DONT_CARE or acc.has_tie():
+        raise DontCare("compu method: no unique expectation", lossy=True)
+    return acc
 
 
 def compu_p2i(cm: Optional[Dict[str, Any]], itype: str, ptype: str, y: Any) -> Any:
@@ -212,48 +198,29 @@ def compu_p2i(cm: Optional[Dict[str, Any]], itype: str, ptype: str, y: Any) -> A
         if itype in ("A_INT32", "A_UINT32") and isinstance(y, float):
             raise DontCare("float physical value for an integer internal type")
         return y
-    if cm["cat"] == "LINEAR":
-        if isinstance(y, bool) or not isinstance(y, (int, float)):
-            raise Reject(f"{y!r} is not a number")
-        if ptype in ("A_INT32", "A_UINT32") and not isinstance(y, int):
-            raise Reject(f"{y!r} is not an int")
-        s = cm["i2p"][0]
-        off, fac = Fraction(s["num"][0]), Fraction(s["num"][1])
-        den = Fraction(s["den"][0]) if s.get("den") else Fraction(1)
-        if fac == 0:
-            raise DontCare("constant linear function")
-        x = (Fraction(y) * den - off) / fac
-        if itype in ("A_INT32", "A_UINT32"):
-            fl = x.numerator // x.denominator
-            r = x - fl
-            if r != 0:
-                # the nearest internal value must map back to y, else the value is not representable
-                cand = fl + (1 if r > Fraction(1, 2) else 0)
-                if r == Fraction(1, 2):
-                    raise DontCare("exact rounding tie")
-                try:
-                    if compu_i2p(cm, itype, ptype, cand) != y:
-                        raise Reject(f"{y!r} has no internal representation")
-                except Mismatch:
-                    raise Reject(f"{y!r} outside the limits")
-                x = Fraction(cand)
-            xv: Any = int(x)
-        else:
-            xv = float(x)
-        if not (_lim_ok_lower(s.get("lo"), xv) and _lim_ok_upper(s.get("hi"), xv)):
-            raise Reject(f"{y!r} maps outside the internal limits")
-        return xv
-    if cm["cat"] == "TEXTTABLE":
-        if not isinstance(y, str):
-            raise Reject(f"{y!r} is not a string")
-        for s in cm["i2p"]:
-            if s["const"] == y:
-                if s.get("inv") is not None:
-                    return s["inv"]
-                lo = s.get("lo")
-                return lo["v"] if isinstance(lo, dict) else lo
-        raise Reject(f"unknown text {y!r}")
-    raise DontCare("compu category " + cm["cat"])
+    from . import refcompu as RC
+    if isinstance(y, bool):
+        raise Reject("bool")
+    acc = RC.phys_to_int_accept(cm, itype, ptype, y)
+    if acc is RC.INVALID:
+        if ptype in ("A_INT32", "A_UINT32") and isinstance(y, int):
+            # odxtools derives integer physical limits by ROUNDING the images of the internal limits (pinned by
+            # tests/test_compu_methods.py: a deliberate reading), so an integer next to a valid one may be accepted
+            for nb in (y - 1, y + 1):
+                if isinstance(RC.phys_to_int_accept(cm, itype, ptype, nb), RC.Accept):
+                    raise DontCare("integer physical value next to a rounded physical limit", lossy=True)
+        raise Reject(f"{y!r} has no internal representation")
+    if acc is RC.DONT_CARE:
+        raise DontCare("compu method: no unique expectation", lossy=True)
+    u = acc.unique()
+    if u is None:
+        raise DontCare("compu method: several admissible internal values", lossy=True)
+    # the description must round-trip by itself (it does not for non-injective methods and for methods whose
+    # declared inverse is not the inverse): otherwise there is no expectation for decode(encode(v))
+    back = RC.int_to_phys_accept(cm, itype, ptype, u)
+    if not isinstance(back, RC.Accept) or not back.ok(y):
+        raise DontCare("compu method does not round-trip this value by itself", lossy=True)
+    return u
 
 
 # ---------------------------------------------------------------------------------------------
